@@ -49,9 +49,19 @@ for m in sorted(glob.glob(os.path.join(ROOT, "seeded", "*", "meta.json"))):
                                                   meta.get("needs", "")[:220].replace("|", "\\|").replace("\n", " "), st, mech.replace("|", "\\|")))
 seed_table = "\n".join(out)
 
+out = ["| check | tier, seed | evaluations | distinct non-trivial | event counters | shards | configurations | wall (s) | verdict |", "|---|---|---|---|---|---|---|---|---|"]
+for f in sorted(glob.glob(os.path.join(ROOT, "evidence", "C*.json"))):
+    e = json.load(open(f))
+    c = e["coverage"]
+    out.append("| %s | %s, %s | %s | %s | %d | %s | %s | %s | %s |" % (
+        e["property_id"], e["tier"], e["seed"], "{:,}".format(c.get("evaluations", 0)), "{:,}".format(c.get("distinct_nontrivial", 0)),
+        len(c.get("events_per_operation", {})), len(c.get("shards", [])) if isinstance(c.get("shards"), list) else c.get("shards", ""),
+        len(c.get("configurations", [])), e.get("wall_s", ""), c.get("verdict", "")))
+ev_table = "\n".join(out)
+
 p = os.path.join(ROOT, "DESIGN.md")
 s = open(p).read()
-for tag, body in (("KILL-MATRIX", mut_table), ("SEEDED", seed_table)):
+for tag, body in (("KILL-MATRIX", mut_table), ("SEEDED", seed_table), ("EVIDENCE", ev_table)):
     b, e = "<!-- %s-BEGIN -->" % tag, "<!-- %s-END -->" % tag
     if b in s:
         s = s[:s.index(b) + len(b)] + "\n" + body + "\n" + s[s.index(e):]
